@@ -807,8 +807,11 @@ class Executor:
                 fl = dag.eval_ieee([x], self.oracle)[x.id]
             except Exception:
                 return None
-            if fl != fl or abs(fl) >= 2 ** 62:
-                raise PathAbort("ub", "float-to-int conversion of %r is undefined" % (fl,))
+            if fl != fl or abs(fl) >= 2 ** (width - 1):
+                # out-of-range conversion: the result is poison (LLVM); undefined behaviour only if it is used (branch, address, store
+                # of the value read back, ...), which the UNDEF value then reports -- the compiler may hoist the conversion above a guard
+                self.path.trace.append(("fptosi(%s) out of range (%r): poison" % (dag.show(x, 3), fl), True, "fptosi"))
+                return UNDEF
             k = int(fl)
             self.path.sig.append(("trunc", x.id, k))
             self.path.trace.append(("trunc(%s) == %d" % (dag.show(x, 3), k), True, "fptosi"))
@@ -1105,6 +1108,8 @@ class Executor:
             self.need_fp(v)
             if v.op == "const":
                 fl = float(v.args[0])
+                if fl != fl or abs(fl) >= 2 ** (ins.ty.a - 1):
+                    return UNDEF
                 return int(fl) & ((1 << ins.ty.a) - 1)
             cv = self.concretize_trunc(v, ins.ty.a)
             if cv is not None:
